@@ -381,6 +381,8 @@ func c15(c *Ctx) (*report.Result, error) {
 	res.Analysed["service_methods"] = map[string]int{"WorkflowService": len(methods["WorkflowService"]), "AdminService": len(methods["AdminService"])}
 	res.RuleDoc["O15.7"] = "translation, access control and repair keep no memory between messages: no shipped function of the interceptor, proto/compat, auth and collect packages stores into package-level state, receiver fields or sync.Maps after construction - a cache keyed by message type or content makes the treatment of one message depend on the ones before it"
 	checkStateless(c, res, "O15.7", []string{"interceptor", "proto/compat", "auth", "collect"}, map[string]string{})
+	res.RuleDoc["O15.10"] = "a refusal reaches the caller: in the translation interceptor's Intercept / InterceptStream every error returned after the handler ran is, on every path, the handler's own error result - the access check sits further down the chain and answers through the handler, so an interceptor that returns nil (a shadowed err, say) turns permission-denied into a clean end of stream"
+	checkHandlerErrorReturned(c, res, "O15.10")
 	res.RuleDoc["O15.9"] = "the allow-list reaches the access check as it was configured: in packages config, auth, interceptor and proxy no append has as its first argument a truncating re-slice of a slice the function was handed (parameter, receiver field, or something loaded through them) - such an append overwrites the caller's element at that position, so a helper that abbreviates a list for the log replaces an allowed method before NewAccessControlInterceptor reads the same array"
 	checkNoAppendOntoBorrowedPrefix(c, res, "O15.9", []string{"config", "auth", "interceptor", "proxy"}, 5)
 	res.RuleDoc["O15.8"] = "no swallowed error in the files the mechanism lives in: no function returns a nil error on a path on which an error obtained from a call is known to be non-nil (io.EOF from a stream Recv, the normal end of a receive loop, is the one accepted idiom)"
